@@ -1653,6 +1653,10 @@ func ruleC10LoaderNeverNil(c *Ctx) {
 					continue
 				}
 			}
+			// a nil test of the options themselves (or of anything else that is not an error): the wrong question
+			if isErrorType(x.Type()) || !equal {
+				continue
+			}
 			others = append(others, c.pos(g.At))
 		}
 		c.R.Check(byField && len(others) == 0, rule, fmt.Sprintf("default-loader#%d:when-the-field-is-nil", n), c.pos(st), "the default loader is installed exactly when the Loader field is nil",
